@@ -33,7 +33,7 @@ def base_scenario(cls, rng, k=0, nx=2, nyh=3, shape=None):
     for i in range(cls["nsurf"]):
         nyf = 2 * (nyh + (i % 2)) - 1 if i == 0 else 2 * nyh - 1
         rec = dict(
-            nx=nx + (1 if (k + i) % 3 == 0 else 0),
+            nx=nx + (1 if ((k + i) % 3 == 0 or i == 2) else 0),
             ny=nyf,
             sym=False,
             shape=shape or shapes[(k + 2 * i) % len(shapes)],
